@@ -239,6 +239,9 @@ type flowRule struct {
 	// dyn resolves dynamic calls (function-valued fields, interfaces) to callees to summarise (optional).
 	dyn      func(site ssa.CallInstruction) []*ssa.Function
 	maxDepth int
+	// summariseHook, when set, supplies the summary of callee g called at site in state s (context-sensitive
+	// analyses keep their own call stack and memo).
+	summariseHook func(g *ssa.Function, site ssa.CallInstruction, s int) *summary
 
 	memo      map[sumKey]*summary
 	active    map[sumKey]bool
@@ -365,7 +368,12 @@ func (r *flowRule) run(fn *ssa.Function, init uint64, depth int) *flowResult {
 					var succ, errm uint64
 					for _, g := range callees {
 						bits(m, func(s int) {
-							sm := r.summarise(g, s, depth+1)
+							var sm *summary
+							if r.summariseHook != nil {
+								sm = r.summariseHook(g, c, s)
+							} else {
+								sm = r.summarise(g, s, depth+1)
+							}
 							succ |= sm.succ
 							errm |= sm.err
 						})
